@@ -332,6 +332,9 @@ fn run(out: &mut Out, sched: &Value) {
                 }
             }
             "inject" => {
+                if p.ctl.with(1 - s, |d| d.closed) {
+                    continue; // nothing can arrive after EOF: the letter is void
+                }
                 let f = vcommon::s(op, "f");
                 let bytes = match f.as_str() {
                     "fin" => frame(Some(0), None),
@@ -356,6 +359,9 @@ fn run(out: &mut Out, sched: &Value) {
                 p.wire(out, "inj");
             }
             "eof" => {
+                if p.ctl.with(1 - s, |d| d.closed) {
+                    continue;
+                }
                 p.ctl.close_dir(1 - s);
                 out.ev(json!({"e": "env", "a": "eof", "s": s}));
             }
